@@ -30,34 +30,27 @@ Print Assumptions C01_backup_undoes_next.
 
 (* Losslessness, all source texts (incl. invalid UTF-8), all Unicode tables,
    every fuel that suffices: the tree returned by the model starts at 0, every
-   node lies inside the source, children tile their parent in order, the leaves
-   concatenate to the source up to the root's end, text after the root is
-   reported by an error there, every error range is inside the source, and each
-   node's text is the slice of its range -- except that a Redir node with a
-   left operand has the text of the range after that operand ([relax = true]). *)
+   node lies inside the source, each node's text is the slice of its range,
+   children tile their parent exactly and in order, the leaves concatenate to
+   the source up to the root's end, text after the root is reported by an error
+   there, and every error range is inside the source. *)
 Theorem C01_parse_tiled : forall is_print src fuel t es,
-  parse_fuel is_print src fuel = Some (t, es) -> Spec_C01_gen true src t es.
-Proof. exact parse_spec_relaxed. Qed.
+  parse_fuel is_print src fuel = Some (t, es) -> Spec_C01 src t es.
+Proof. exact parse_spec. Qed.
 Print Assumptions C01_parse_tiled.
-
-(* The full property (text = slice everywhere) for every parse whose tree has
-   no Redir node with a left operand. *)
-Theorem C01_parse_lossless_partial : forall is_print src fuel t es,
-  parse_fuel is_print src fuel = Some (t, es) -> no_redir_left t = true -> Spec_C01 src t es.
-Proof. exact parse_spec_strict. Qed.
-Print Assumptions C01_parse_lossless_partial.
 
 Theorem C01_parse_errors_in_range : forall is_print src fuel t es,
   parse_fuel is_print src fuel = Some (t, es) -> errs_in_range src es.
 Proof. exact parse_errors_in_range. Qed.
 Print Assumptions C01_parse_errors_in_range.
 
-(* The full statement "every node's text is the slice of its range" is false
-   of the faithful model (and of the implementation): witness "a 2>b". *)
-Theorem C01_node_text_is_slice_refuted :
-  exists src t es, parse_model pr0 src = Some (t, es) /\ ~ Spec_C01 src t es.
-Proof. exact node_text_is_slice_refuted. Qed.
-Print Assumptions C01_node_text_is_slice_refuted.
+(* a Redir node with a left operand: range and text agree ("a 2>b") *)
+Example C01_example_redir_with_left :
+  match parse_model pr0 redir_example with
+  | Some (t, es) => check_C01 redir_example t es = true /\ es = []
+  | None => False
+  end.
+Proof. exact redir_example_ok. Qed.
 
 (* Per-loop progress, unbounded: in every reachable parser state of every
    source, each leaf loop (spaces/comments/continuations, redirection sign,
@@ -86,13 +79,18 @@ Theorem C01_node_progress : forall is_print src fuel,
 Proof. exact parsers_prog. Qed.
 Print Assumptions C01_node_progress.
 
-(* Totality with the fuel bound FUELK*(len+1), bounded version: for every text
-   of length <= 3 over 25 metacharacters and of length <= 4 over 16 bytes
-   (incl. a two-byte rune and its halves) the model returns within its fuel. *)
-Theorem C01_parse_total_partial : forall s, in_sweep s ->
-  exists t es, parse_model pr0 s = Some (t, es) /\ check_C01_gen true s t es = true.
-Proof. exact sweep_total. Qed.
-Print Assumptions C01_parse_total_partial.
+(* Totality, unbounded: for every source text (incl. invalid UTF-8) and every
+   Unicode table the model returns within its fuel FUELK*(len+1) -- no
+   OutOfFuel -- and what it returns is a lossless tree with all errors in range. *)
+Theorem C01_parse_total : forall is_print src,
+  exists t es, parse_model is_print src = Some (t, es).
+Proof. exact parse_total. Qed.
+Print Assumptions C01_parse_total.
+
+Theorem C01_parse_total_and_lossless : forall is_print src,
+  exists t es, parse_model is_print src = Some (t, es) /\ Spec_C01 src t es.
+Proof. exact parse_total_lossless. Qed.
+Print Assumptions C01_parse_total_and_lossless.
 
 (* non-vacuity: the model parses a pipeline with a lambda without errors into
    a tree accepted by the oracle *)
